@@ -26,7 +26,7 @@ RULE = ("interpolation: label vectors over {0,1,2,3} (isolated, clusters of adja
 ASSUMPTIONS = ["a bad channel's admissible neighbours = non-bad channels whose distance-decay weight exp(-(d/20um)^1.3) is >= 0.005 (d <= 72.1 um)",
                "detection is judged on generated backgrounds only; the feature margins measured on the run are written to the evidence",
                "mode over batches is asserted only without ties (7/3 splits)"]
-REQUIRED = {"interp_cases": 40, "nonfinite_bad_rows": 20, "bad_rows_checked": 100, "untouched_rows_checked": 40, "detection_cases": 20, "file_mode_cases": 2, "spied_batches": 20, "plurality_channels": 1, "file_mode_cbin": 1, "file_mode_np1_own_maxint": 1, "file_mode_short_recordings": 1}
+REQUIRED = {"interp_cases": 40, "nonfinite_bad_rows": 20, "bad_rows_checked": 100, "untouched_rows_checked": 40, "detection_cases": 20, "file_mode_cases": 2, "spied_batches": 20, "plurality_channels": 1, "file_mode_cbin": 1, "file_mode_np1_own_maxint": 1, "file_mode_short_recordings": 1, "detection_offset_recordings": 8}
 CASE_TIMEOUT = 200.0
 KINDS = ["3B2", "NP2.1", "NP2.4", "NPultra"]
 
@@ -37,6 +37,8 @@ def gen_cases(seed, tier):
     cases += [{"cls": "detect", "seed": seed * 1000 + i, "n": 2, "_w": 4} for i in range(n)]
     cases += [{"cls": "detect-edge", "seed": seed * 1000 + i, "first": i == 0, "end": ["bottom", "top"][i % 2], "_w": 3} for i in range(max(7, n // 4))]
     cases += [{"cls": "file", "seed": seed * 1000 + i, "_w": 8} for i in range(max(4, n // 6))]
+    # round 20: channels resting on their own DC level (as raw AP data do), the coherent background weaker than each channel's own noise
+    cases += [{"cls": "detect-offsets", "seed": seed * 1000 + i, "n": 2, "_w": 4} for i in range(max(6, n // 3))]
     return cases
 
 
@@ -178,7 +180,7 @@ def run_case(case):
                                       f"admissible neighbours")
             if np.sum(bad) >= 2:
                 sigs.add((kind, pattern))
-    elif cls in ("detect", "detect-edge"):
+    elif cls in ("detect", "detect-edge", "detect-offsets"):
         fs, ns, nc = 30000.0, 9000, 384
         reps = case.get("n", 1)
         for rep in range(reps):
@@ -187,6 +189,13 @@ def run_case(case):
             if top_end:
                 ntop = 0                              # the silent channel sits 1..5 channels below the LAST channel of a probe that is fully inside
             x = background(rng, nc, ns, fs, ntop)
+            if cls == "detect-offsets":
+                # a white common component 2.5-3.5 times WEAKER than the private noise of each channel (the median over 384 channels still
+                # recovers it), and every channel - the silent one too - resting on its own DC level within +-1.5 mV. Measured on the unchanged
+                # tree (40 recordings): silent channel -0.97 (threshold -0.5), clear channels >= -0.13, PSD of clear channels <= 0.010 (0.02)
+                priv = rng.uniform(6e-6, 11e-6)
+                x = rng.standard_normal((nc, ns)) * priv
+                x[: nc - ntop] += rng.standard_normal(ns) * priv / rng.uniform(2.5, 3.5)
             if cls == "detect-edge":
                 first = case.get("first", False)      # the first edge case of every run puts the silent channel on channel 0
                 if top_end:
@@ -212,6 +221,10 @@ def run_case(case):
             exp[dead] = 1
             exp[noisy] = 2
             label = f"top block={ntop} dead={dead.tolist()} noisy={noisy.tolist()}"
+            if cls == "detect-offsets":
+                x += rng.uniform(-1.5e-3, 1.5e-3, nc)[:, None]
+                label = "channels on their own DC levels, weak common background: " + label
+                res.count("detection_offset_recordings")
             res.count("detection_cases")
             try:
                 lab, feat = V.detect_bad_channels(x.copy(), fs)
@@ -220,7 +233,7 @@ def run_case(case):
                 continue
             wrong = np.flatnonzero(lab != exp)
             if wrong.size:
-                key = "detect:labels"
+                key = "detect:labels" + (":dc-offsets" if cls == "detect-offsets" else "")
                 if wrong.tolist() == [0] and 0 in dead.tolist() and lab[0] == 0:
                     key = "detect:dead-channel-0-missed"      # mechanism: the 11-point median detrend pads the edge with the edge value itself
                 res.violation(key, f"{label}: labels differ at channels {wrong[:8].tolist()}: got {lab[wrong][:8].tolist()} expected {exp[wrong][:8].tolist()} "
